@@ -549,11 +549,125 @@ def rule_bounds(repo, rep):
     rep.unknown(R, key, site(f, st_[0]), 'points %s' % xdef)
 
 
+def rule_setup(repo, rep):
+  R = 'R-FORM:itml-constraint-setup'
+  rep.rule(R, 'the first projection loop runs over the differences of the '
+           'two points of the pairs labelled +1 with slack-adjusted bounds '
+           'started at bounds_[0], the second over those labelled -1 with '
+           'bounds started at bounds_[1]; its dual index is shifted by the '
+           'number of similar pairs')
+  f = astutil.inline_helpers(repo, repo.get_func('itml._BaseITML._fit'))
+  key = 'itml._BaseITML._fit:'
+  An = None
+  stores = [n for n in ast.walk(f.node) if isinstance(n, ast.Assign) and
+            ast.unparse(n.targets[0]) == 'self.components_']
+  if stores and isinstance(stores[-1].value, ast.Call) and \
+          stores[-1].value.args and \
+          isinstance(stores[-1].value.args[0], ast.Name):
+    An = stores[-1].value.args[0].id
+  loops = sorted([n for n in ast.walk(f.node) if isinstance(n, ast.For) and
+                  any(isinstance(s_, ast.AugAssign) and
+                      ast.unparse(s_.target) == An for s_ in n.body)],
+                 key=lambda n: n.lineno)
+  if len(loops) != 2:
+    rep.unknown(R, key + 'loops', site(f), '%d projection loops'
+                % len(loops))
+    return
+  body = f.node.body
+  pn = f.params()[1]
+
+  def label_of(e):
+    """pairs[<y> == c] -> c"""
+    if isinstance(e, ast.Subscript) and ast.unparse(e.value) == pn and \
+            isinstance(e.slice, ast.Compare) and len(e.slice.ops) == 1 and \
+            isinstance(e.slice.ops[0], ast.Eq):
+      c = e.slice.comparators[0]
+      if isinstance(c, ast.Constant):
+        return c.value
+      if isinstance(c, ast.UnaryOp) and isinstance(c.op, ast.USub) and \
+              isinstance(c.operand, ast.Constant):
+        return -c.operand.value
+    return None
+
+  def slot(x):
+    if not isinstance(x, ast.Subscript):
+      return None, None
+    sl = x.slice.elts if isinstance(x.slice, ast.Tuple) else [x.slice]
+    if len(sl) in (2, 3) and isinstance(sl[1], ast.Constant) and all(
+            isinstance(p_, ast.Slice) and p_.lower is None and
+            p_.upper is None and p_.step is None
+            for i_, p_ in enumerate(sl) if i_ != 1):
+      return x.value, sl[1].value
+    return None, None
+  for li, (lp, lab, bidx, tag) in enumerate(
+          ((loops[0], 1, 0, 'similar'), (loops[1], -1, 1, 'dissimilar'))):
+    it = lp.iter
+    seq = it.args[0] if isinstance(it, ast.Call) and \
+        isinstance(it.func, ast.Name) and it.func.id == 'enumerate' and \
+        it.args else it
+    un = astutil.unfold(seq, body, lp, stop=(pn, 'y'))
+    ok = None
+    if isinstance(un, ast.BinOp) and isinstance(un.op, ast.Sub):
+      (b1, s1), (b2, s2) = slot(un.left), slot(un.right)
+      if b1 is not None and b2 is not None and \
+              ast.dump(b1) == ast.dump(b2) and sorted([s1, s2]) == [0, 1]:
+        lv = label_of(b1)
+        ok = lv == lab if lv is not None else None
+        if lv is not None and lv != lab:
+          rep.refuted(R, key + tag + ':pairs', site(f, lp), 'the %s '
+                      'projection loop runs over the pairs labelled %r'
+                      % (tag, lv))
+          continue
+    elif isinstance(un, ast.BinOp) and isinstance(un.op, ast.Add):
+      rep.refuted(R, key + tag + ':pairs', site(f, lp), 'the loop runs over '
+                  '%s: a sum, not the difference of the two points'
+                  % ast.unparse(un))
+      continue
+    if ok:
+      rep.derived(R, key + tag + ':pairs', site(f, lp))
+    else:
+      rep.unknown(R, key + tag + ':pairs', site(f, lp), 'sequence %s not '
+                  'recognised as the differences of the pairs labelled %d'
+                  % (ast.unparse(un), lab))
+    # slack-adjusted bounds: the vector written at [i] in this loop
+    bh = [s_.targets[0].value.id for s_ in lp.body
+          if isinstance(s_, ast.Assign) and
+          isinstance(s_.targets[0], ast.Subscript) and
+          isinstance(s_.targets[0].value, ast.Name)]
+    bh = [b for b in bh if b != An]
+    if not bh:
+      rep.unknown(R, key + tag + ':bounds', site(f, lp), 'slack-adjusted '
+                  'bound vector not found')
+      continue
+    bd = [v for (n_, v) in guards.assignments(f.node, bh[0])
+          if v is not None]
+    txt = ast.unparse(bd[0]).replace(' ', '') if bd else ''
+    import re as _re
+    m = _re.match(r'^(?:np\.zeros\((\w+)\)\+self\.bounds_\[(\d)\]|'
+                  r'self\.bounds_\[(\d)\]\+np\.zeros\((\w+)\)|'
+                  r'np\.full\((\w+),self\.bounds_\[(\d)\](?:,dtype=float)?\))$',
+                  txt)
+    if m:
+      idx = next(int(g) for g in (m.group(2), m.group(3), m.group(6))
+                 if g is not None)
+      rep.add(R, key + tag + ':bounds', 'derived' if idx == bidx else
+              'refuted', site(f, lp), '' if idx == bidx else 'the %s '
+              'constraints start from bounds_[%d], documented bounds_[%d]'
+              % (tag, idx, bidx))
+    elif '-self.bounds_' in txt:
+      rep.refuted(R, key + tag + ':bounds', site(f, lp), 'slack-adjusted '
+                  'bounds start from %s' % txt)
+    else:
+      rep.unknown(R, key + tag + ':bounds', site(f, lp), 'initial slack-'
+                  'adjusted bounds %s not recognised' % txt)
+
+
 def check(repo, rep, tier):
   rule_dual_nonneg(repo, rep)
   rule_rank_one(repo, rep)
   rule_update_formulas(repo, rep)
   rule_bounds(repo, rep)
+  rule_setup(repo, rep)
   # strictly PD prior required at the call site (shared with C20)
   R = 'R-TABLE:strict-pd-call-sites'
   before = len(rep.obs)
